@@ -756,6 +756,10 @@ def reassemble(codec, m, k, pathvars, rec, numeric, sent):
     b = m["bindings"][k]
     primary = m["bindings"][0]
     problems = []
+    # the known `additional-binding` / `primary-has-no-body` classes need their trigger: an ADDITIONAL binding that the request
+    # really selects (first declared binding whose path variables are set and conform) — not merely a binding whose template
+    # happens to match the observed path as well
+    in_use = k != 0 and select_binding(m, sent) == k
 
     def bound_by(bb, name):
         return bb["body"] in ("*", name) or any(p == name for (p, _t, _s) in bb["vars"])
@@ -764,7 +768,7 @@ def reassemble(codec, m, k, pathvars, rec, numeric, sent):
         """`additional-binding` ONLY for the recorded root cause: the defaults table is computed from the primary binding,
         so with another binding in use a field the primary leaves unbound is defaulted although bound now (dup), or a field
         the primary binds is not defaulted although unbound now (missing); anything else keeps a generic reason"""
-        if k != 0 and bound_by(primary, name) != dup and bound_by(b, name) == dup:
+        if k != 0 and in_use and bound_by(primary, name) != dup and bound_by(b, name) == dup:
             return "additional-binding"
         return "primary-binding" if k == 0 else "binding-in-use"
     # --- path
@@ -781,7 +785,7 @@ def reassemble(codec, m, k, pathvars, rec, numeric, sent):
     if b["body"]:
         if text == "":
             lost = sent if b["body"] == "*" else sent.get(b["body"])
-            tag = "primary-has-no-body" if not primary["body"] else "same-binding"
+            tag = "primary-has-no-body" if (in_use and not primary["body"]) else ("same-binding" if k == 0 else "binding-in-use")
             if lost:
                 problems.append((f"body-not-sent:{tag}", f"binding {k} ({b['verb']} {b['uri']}, body={b['body']!r}) was used but no body was sent; "
                                  f"{'the request' if b['body'] == '*' else 'field ' + b['body']} is lost"))
@@ -812,7 +816,7 @@ def reassemble(codec, m, k, pathvars, rec, numeric, sent):
     fixed = []
     for (kk, v) in pairs:
         fd = find_field(desc, kk)
-        if (fd is not None and fd.type == FD.TYPE_BYTES and fd.label != fd.LABEL_REPEATED and v == "b''"
+        if (fd is not None and fd.type == FD.TYPE_BYTES and fd.label != fd.LABEL_REPEATED and v == "b''" and fd.name not in sent
                 and any(fs["name"] == fd.name and fs.get("required") for fs in m["fields"])):
             problems.append(("required-default-bytes-literal", f"query parameter {kk}=b'' (python repr of bytes) for an unset required bytes field"))
             v = ""
@@ -860,6 +864,13 @@ def reassemble(codec, m, k, pathvars, rec, numeric, sent):
         problems.append(("dup:body+query", f"body field {b['body']} also in the query"))
     # --- no loss
     merged = deep_merge(deep_merge(P, B), Q)
+    body_unsent = any(p[0].startswith("body-not-sent") for p in problems)
+    if body_unsent:                       # already reported; everything ELSE (path, query) must still be rebuilt exactly
+        rest = {} if b["body"] == "*" else {k_: v for k_, v in sent.items() if k_ != b["body"]}
+        for (path, _typ, _tmpl) in b["vars"]:
+            if get_path(sent, path) is not None:
+                set_path(rest, path, get_path(sent, path))
+        sent = rest
     try:
         got = codec.encode(in_full(m), merged)
         if got != codec.encode(in_full(m), sent):
@@ -875,9 +886,11 @@ def reassemble(codec, m, k, pathvars, rec, numeric, sent):
                 one_default = all(isinstance(gd.get(e), list) and len(gd[e]) == 1 and gd[e][0] in ("", 0, "0", False, 0.0)
                                   and e not in sent for e in reqrep)
                 if reqrep and len(reqrep) == len(extra) and one_default:
-                    tag = "required-repeated-default"      # ONLY: an unset required repeated scalar sent as one default element
-            if not any(p[0].startswith("body-not-sent") for p in problems):
-                problems.append((f"reassembly:{tag}", f"path+body+query rebuild {gd}, sent {sent} (lost {lost}, extra {extra})"))
+                    # ONLY: an unset required repeated scalar sent as one default element, and NOTHING else differs
+                    same_otherwise = codec.encode(in_full(m), {k_: v for k_, v in gd.items() if k_ not in reqrep}) == codec.encode(in_full(m), sent)
+                    tag = "required-repeated-default" if same_otherwise else "value"
+            problems.append((f"reassembly:{tag}", f"path+body+query rebuild {gd}, sent{' (besides the unsent body)' if body_unsent else ''} "
+                             f"{sent} (lost {lost}, extra {extra})"))
     except Exception as e:  # noqa: ParseError
         problems.append(("reassembly:unparsable", f"{type(e).__name__}: {str(e)[:200]}"))
     # --- required scalars not bound by path or body must be in the query
@@ -913,7 +926,8 @@ def classify_raise(m, val, res):
     """signature key for a client call that raised although a declared binding matches the request"""
     k = select_binding(m, val)
     exc = res.get("raised")
-    if exc == "KeyError" and "body" in res.get("msg", "") and k is not None and not m["bindings"][k]["body"] and m["bindings"][0]["body"]:
+    if (exc == "KeyError" and res.get("msg", "") == "'body'" and not res.get("server") and k is not None and k != 0
+            and not m["bindings"][k]["body"] and m["bindings"][0]["body"]):
         return "body-of-primary-binding-assumed:KeyError"
     return f"call-raised:{exc}"
 
